@@ -40,6 +40,16 @@ def make_case(cid, rnd, stdlib):
         ws["tags"].append("fixture-named-test")
     import wsgen as W
     steps = W.build_steps(ws)
+    if cid % 4 == 1:
+        # the background scan reaches documents the editor has already opened: a scan-style
+        # (no clean-up) analysis of the same text on top of the first one.  Only modules without
+        # fixture definitions of their own (for the others the doubled definitions are C10's
+        # listed finding)
+        again = [p for p in sorted(ws["files"]) if not def_positions(ws["files"][p], stdlib) and "def test" in ws["files"][p]]
+        for p in again[:2]:
+            steps.append({"op": "analyze", "path": p, "text": ws["files"][p], "fresh": True})
+        if again:
+            ws["tags"].append("scan-after-open")
     nq = add_queries(ws, steps, stdlib)
     return {"id": cid, "steps": steps, "tags": ws["tags"], "queries": nq}
 
